@@ -9,6 +9,7 @@ CONSTANTS
   Lens = {57, 116, 175}
   Cmds = {1}
   MaxMsgs = 1
+  Cuts = {0}
   MaxPkts = 3
   Export = TRUE
 SPECIFICATION Spec
